@@ -79,6 +79,11 @@ def _run(tier, seed, replay=None):
         if not rv.violated:
             raise vlib.Inconclusive("RemoteUnit variant RestartIfIdKnown=TRUE did not violate anything (exit %s)" % rv.exit)
         variants["RemoteUnit RestartIfIdKnown=TRUE (restart resumes a half-finished remote submission)"] = rv.violated
+        for cname in ("IdStoredLate", "RestartSkipsComplete"):
+            x = vlib.tlc("RemoteUnit", "ru_%s.cfg" % cname, wd, timeout=600, cfg_text=ru_base.replace(cname + " = FALSE", cname + " = TRUE"))
+            if not x.violated:
+                raise vlib.Inconclusive("RemoteUnit variant %s=TRUE did not violate anything (exit %s)" % (cname, x.exit))
+            variants["RemoteUnit %s=TRUE" % cname] = x.violated
     wit = [] if tier == "quick" else vlib.witnesses("WorkUnit", "WorkUnit_crash.cfg", ["W_NoRecovery", "W_NoSucceeded"], wd)
 
     rec = vlib.build_receptor()
@@ -96,9 +101,9 @@ def _run(tier, seed, replay=None):
             only += "+executor-down"
         args += ["-only", only]
     elif tier == "quick":
-        args += ["-max", "16", "-rsched", "cancel-then-restart-submitter"]
+        args += ["-max", "16", "-rsched", "cancel-then-restart-submitter,kill-submitter-final-status-short-output"]
     else:
-        args += ["-second", "-rsched", "cancel-then-restart-submitter,cancel-while-disconnected"]
+        args += ["-second", "-rsched", "cancel-then-restart-submitter,kill-submitter-final-status-short-output,cancel-while-disconnected,restart-submitter-during-monitoring"]
     res = vlib.harness_json(vd, args, wd, timeout=6000, name="vd_c04")
     for viol in res["violations"]:
         v.violation(viol["sig"], viol["what"], viol["replay"])
